@@ -164,6 +164,23 @@ def make_file(rng: random.Random, cfg: dict | None = None) -> dict:
     return {"name": name, "text": text, "tags": sorted(tags), "n_top": len(tops), "n_decay_lines": len(decays), "resonances": res}
 
 
+def permuted_twin(f: dict, rng: random.Random) -> dict:
+    """The same model with the final-state particles of the EventType line in another order."""
+    lines = f["text"].split("\n")
+    for i, ln in enumerate(lines):
+        s = ln.split()
+        if s and s[0] == "EventType":
+            fs = s[2:]
+            for _ in range(10):
+                perm = fs[:]
+                rng.shuffle(perm)
+                if perm != fs:
+                    break
+            lines[i] = " ".join([s[0], s[1], *perm])
+    text = "\n".join(lines)
+    return {**f, "name": "t" + hashlib.sha256(text.encode()).hexdigest()[:10] + ".opts", "text": text, "tags": sorted(set(f["tags"]) | {"event_type_permuted"})}
+
+
 def make_pool(seed: int, n: int, cfg: dict | None = None) -> list:
     rng = random.Random(seed)
     pool, seen = [], set()
@@ -212,7 +229,8 @@ class SimClock:
         self.datetime = _DateTime
 
 
-_seams = {"installed": False, "files": {}, "clock": None, "opens": 0}
+_seams = {"installed": False, "files": {}, "clock": None, "opens": 0, "fail_table_load": 0, "table_load_faults_fired": 0}
+SPECIAL_TABLE = "MintDalitzSpecialParticles.csv"
 
 
 def install_seams(files: dict):
@@ -251,6 +269,11 @@ def install_seams(files: dict):
                 s = ""
             if s.startswith(SIM_PREFIX):
                 return sim_open(file, mode)
+            if _seams["fail_table_load"] and s.endswith(SPECIAL_TABLE):
+                # transient I/O error while the one-time special-particle table is being loaded
+                _seams["fail_table_load"] -= 1
+                _seams["table_load_faults_fired"] += 1
+                raise OSError(5, "simulated I/O error", s)
             return real_b_open(file, mode, *a, **kw)
 
         def read_text(self, *a, **kw):
@@ -303,6 +326,9 @@ def do_op(op: dict, files: dict) -> dict:
     """Execute one read/convert call; returns {"kind": "read"|"text"|"raise", ...} (JSON-able)."""
     import importlib
 
+    if op["op"] == "arm_table_fault":
+        _seams["fail_table_load"] = 1
+        return {"kind": "armed"}
     if op["op"] == "interrupt":
         # the call is killed at its k-th line event inside the package (KeyboardInterrupt-like); what it leaves behind is
         # what the following calls of the history have to cope with
@@ -458,11 +484,15 @@ def run_ops(args: dict) -> dict:
     texts = {f["name"]: f["text"] for f in args["pool"]}
     for op in args["ops"]:
         tgt = op["inner"] if op["op"] == "interrupt" else op
-        if tgt.get("content"):
+        if tgt.get("content") and "file" in tgt:
             # the file system changes between calls: this name now holds another pool file's text
             files[SIM_PREFIX + tgt["file"]] = texts[tgt["content"]]
             _seams["files"][SIM_PREFIX + tgt["file"]] = texts[tgt["content"]]
-        out.append(json.loads(json.dumps(do_op(op, files))))  # plain JSON types only (lark Tokens are str subclasses)
+        fired0 = _seams["table_load_faults_fired"]
+        o = json.loads(json.dumps(do_op(op, files)))  # plain JSON types only (lark Tokens are str subclasses)
+        if _seams["table_load_faults_fired"] != fired0:
+            o["faulted"] = True  # this call met the injected I/O error: nothing is promised about it, only about the calls after it
+        out.append(o)
     return {"obs": out, "clock_reads": clock.reads, "clock_jumps": clock.jumps, "opens": _seams["opens"]}
 
 
@@ -632,7 +662,12 @@ def c19_candidates(case: dict):
 
 
 # ------------------------------------------------------------------ C20: histories
+FAULT_OPS = ("interrupt", "arm_table_fault")
+
+
 def op_kind(op: dict) -> str:
+    if op["op"] == "arm_table_fault":
+        return "arm_table_fault"
     if op["op"] == "interrupt":
         return "interrupt:" + op_kind(op["inner"])
     if op["op"] == "read":
@@ -641,6 +676,8 @@ def op_kind(op: dict) -> str:
 
 
 def op_key(op: dict) -> str:
+    if op["op"] == "arm_table_fault":
+        return "arm_table_fault"
     if op["op"] == "interrupt":
         return f"interrupt[{op['k']}]:" + op_key(op["inner"])
     return op_kind(op) + "@" + op["file"] + ("<-" + op["content"] if op.get("content") else "")
@@ -682,6 +719,9 @@ def gen_history(rng: random.Random, pool: list, cfg: dict | None = None) -> dict
     for i in range(len(ops) - 1):
         if rng.random() < p_int:
             ops[i] = {"op": "interrupt", "inner": ops[i], "k": int(10 ** rng.uniform(0.0, 3.6))}
+    # ... and sometimes the one-time load of the special-particle table meets a transient I/O error
+    if rng.random() < cfg.get("p_table_fault", 0.15):
+        ops.insert(rng.randrange(0, len(ops) - 1), {"op": "arm_table_fault"})
     r = rng.random()
     clock = [] if r < 0.6 else [rng.choice([0, 2.5, -3600.0, 86400.0]) for _ in range(n)]
     return {"ops": ops, "clock": clock}
@@ -719,11 +759,11 @@ def run_history_case(case: dict) -> dict:
                 out.update(verdict="violation", signature={"check": "exact_reproducibility"}, detail={"op_index": i, "op": ops[i], "diff": first_diff(x, y)})
                 break
         return out
-    refs = [None if op["op"] == "interrupt" else fork_call(run_ops, {"pool": pool, "ops": [op]}, limit_s=case.get("limit_s", 900))["obs"][0]
+    refs = [None if op["op"] in FAULT_OPS else fork_call(run_ops, {"pool": pool, "ops": [op]}, limit_s=case.get("limit_s", 900))["obs"][0]
             for op in ops]
     hist = run_ops({"pool": pool, "ops": ops, "clock": case.get("clock")})["obs"]
     for i, (h, r) in enumerate(zip(hist, refs)):
-        if r is None:
+        if r is None or h.get("faulted"):
             continue
         d = compare_obs(r, h)
         if d is not None:
@@ -745,7 +785,7 @@ def c20_candidates(case: dict):
     for i, o in enumerate(ops):
         if o["op"] == "interrupt":
             yield {**case, "ops": ops[:i] + [o["inner"]] + ops[i + 1 :]}
-    flat = [o["inner"] if o["op"] == "interrupt" else o for o in ops]
+    flat = [o["inner"] if o["op"] == "interrupt" else o for o in ops if o["op"] != "arm_table_fault"]
     used = {o["file"] for o in flat} | {o["content"] for o in flat if o.get("content")}
     pool = case["pool"]
     if any(f["name"] not in used for f in pool):
